@@ -3,15 +3,22 @@ import GoNeat.Spec.AccessExpect
 import GoNeat.Gen.Access
 open GoNeat GoNeat.AccessTable
 
+def kindStr : AccKind → String
+  | .rd => "read" | .wr => "write" | .atomic => "atomic"
+def protStr : Prot → String
+  | .plain => "plain (no lock held)" | .atomic => "atomic" | .underMutex hs => s!"under {hs}"
+def classStr : SharedClass → String
+  | .guarded m => s!"guarded by {m}" | .readOnly => "read-only" | .atomicOnly => "atomic-only"
+
 def main : IO UInt32 := do
   let shared := sharedViolations AccessExpect.classOf Gen.accesses
   let unc := uncovered AccessExpect.expectations Gen.fieldWrites Gen.fieldReads
   let wrongOwn := Gen.fieldWrites.filter (fun w => lookupExpect AccessExpect.expectations w == some .parentRO)
   let ext := Gen.externalCalls.filter (fun e => !AccessExpect.externOk.contains e)
   for a in shared do
-    IO.println s!"VIOLATING shared access: {a.fn} {repr a.kind} {a.loc} {repr a.prot} at {a.pos} (class required: {repr (AccessExpect.classOf a.loc)})"
+    IO.println s!"VIOLATING shared access: {kindStr a.kind} of {a.loc} in {a.fn}, {protStr a.prot}, at {a.pos} (required: {classStr (AccessExpect.classOf a.loc)})"
   for a in unc do
-    IO.println s!"VIOLATING uncovered field access: {a.fn} {repr a.kind} {a.label} origin={a.origin} at {a.pos} (no entry in Spec/AccessExpect.lean)"
+    IO.println s!"VIOLATING uncovered field access: {kindStr a.kind} of {a.label} in {a.fn}, receiver origin {a.origin}, at {a.pos} (no entry in Spec/AccessExpect.lean)"
   for a in wrongOwn do
     IO.println s!"VIOLATING write to the parent generation: {a.fn} {a.label} at {a.pos}"
   for e in ext do
